@@ -17,7 +17,13 @@ SYNTH_SIZES = {
 SYNTH_PROPS = ['C01', 'C02', 'C03', 'C04', 'C05', 'C06', 'C07', 'C08', 'C09', 'C13', 'C14', 'C15', 'C16', 'C19']
 
 # scenario files that start from poked (state-injected) worlds: compared, not monitored
-DIFF_ONLY_SCENARIOS = ['coverage_gaps.ops']
+# (queries.ops: directed histories for the listing queries, DESIGN.md 11.10; two of them poke)
+DIFF_ONLY_SCENARIOS = ['coverage_gaps.ops', 'queries.ops']
+
+# the query-side twins of the stored-state lines (PROTOCOL.md section 5): same information as
+# hub.cfg / hub.newowner / hub.params / rw.cfg / ... but obtained through the contracts' query entry points
+QCFG_KEYS = ['hub.qcfg', 'hub.qnewowner', 'hub.qparams', 'rw.qcfg', 'rw.qnewowner', 'dp.qcfg', 'dp.qnewowner',
+             'rg.qcfg', 'rg.qnewowner']
 
 ENV_ASSUME = [
     'environment model of DESIGN.md section 7 (atomic transactions, depth-first dispatch, bank rejects zero/overdraft sends, exact staking accounting)',
@@ -51,9 +57,9 @@ PROPS = {
         theorems=['C10_hub', 'C10_dispatcher', 'C10_reward', 'C10_registry', 'C10_bsei_token', 'C10_stsei_token',
                   'C10_hub_set_owner', 'C10_hub_accept', 'C10_token_addr_immutable', 'C10_hub_static',
                   'C10_rejected_changes_nothing', 'C10_root_rejected'],
-        kernels=[], scenarios=['basic.ops', 'paramgrid.ops'], grid=True, profiles=['config'],
+        kernels=[], scenarios=['basic.ops', 'paramgrid.ops', 'queries.ops'], grid=True, profiles=['config'],
         keys=['hub.cfg', 'hub.newowner', 'hub.params', 'rw.cfg', 'rw.newowner', 'dp.cfg', 'dp.newowner', 'rg.cfg',
-              'rg.newowner', 'rg.vals', 'tok.bsei.info', 'tok.stsei.info'],
+              'rg.newowner', 'rg.vals', 'tok.bsei.info', 'tok.stsei.info'] + QCFG_KEYS,
         ops=[r'^(hub|reward|disp|reg) ', r'^bond rw', r'^cw \S+ \S+ (mint|burn|updminter)'],
         assumes=['the grid (message variant x sender class x world kind) is enumerated exhaustively by the harness'],
     ),
@@ -72,8 +78,8 @@ PROPS = {
         theorems=['C20_params_in_range', 'C20_denoms_fixed', 'C20_hub_params_omitted', 'C20_hub_config_omitted',
                   'C20_disp_config_omitted', 'C20_reward_config_omitted', 'C20_reg_config_omitted',
                   'C20_rejected_changes_nothing'],
-        kernels=[], scenarios=['basic.ops', 'paramgrid.ops'], profiles=['config'],
-        keys=['hub.params', 'hub.cfg', 'dp.cfg', 'rw.cfg', 'rg.cfg', 'hub.newowner', 'dp.newowner', 'rw.newowner', 'rg.newowner'],
+        kernels=[], scenarios=['basic.ops', 'paramgrid.ops', 'queries.ops'], profiles=['config'],
+        keys=['hub.params', 'hub.cfg', 'dp.cfg', 'rw.cfg', 'rg.cfg', 'hub.newowner', 'dp.newowner', 'rw.newowner', 'rg.newowner'] + QCFG_KEYS,
         ops=[r'^inst_', r'^hub \S+ (params|config)', r'^disp \S+ (config|swapdenom|swapcontract|oracle)',
              r'^reward \S+ (config|swapdenom)', r'^reg \S+ config'],
         assumes=[],
@@ -82,14 +88,14 @@ PROPS = {
         props_file='Props/C18.v',
         theorems=['C18_supply_invariant_reachable', 'C18_bsei_preserves', 'C18_stsei_preserves', 'C18_instantiate',
                   'C18_move_conserves', 'C18_mint_only_minter', 'C18_burn_only_hub', 'C18_allowance_bound'],
-        kernels=[], scenarios=['basic.ops', 'token.ops'], profiles=['token'],
+        kernels=[], scenarios=['basic.ops', 'token.ops', 'queries.ops'], profiles=['token'],
         keys=['tok.', 'm wasm bsei', 'm wasm stsei'],
         ops=[r'^cw ', r'^inst_bsei', r'^inst_stsei'],
         assumes=['all token holders are among the 21 named addresses (only those appear in operations)'],
     ),
 }
 
-HUBKEYS = ['hub.stored', 'hub.state', 'hub.batch', 'hub.hist', 'hub.wait', 'hub.wd', 'tok.', 'bank hub', 'del ', 'unb ',
+HUBKEYS = ['hub.stored', 'hub.state', 'hub.qdep', 'hub.batch', 'hub.hist', 'hub.qhist', 'hub.wait', 'hub.wd', 'tok.', 'bank hub', 'del ', 'unb ',
            'm delegate', 'm undelegate', 'm redelegate', 'm bank hub', 'm wasm hub', 'm wasm bsei hub', 'm wasm stsei hub',
            'm wasm user', 't']
 HUBOPS = [r'^bond ', r'^cw ', r'^hub \S+ (withdraw|checkslashing|updateglobal|receive)', r'^(advance|slash|gift|accrue)', r'^reg ']
@@ -98,7 +104,7 @@ E_ENV = ['operating envelope of DESIGN.md section 4 (E1 magnitudes <= 1e18, E2 t
 
 def _hub(pid, theorems, profiles, kernels=(), extra_keys=(), assumes=()):
     return dict(props_file='Props/%s.v' % pid, theorems=list(theorems), kernels=list(kernels),
-                scenarios=['basic.ops', 'findings.ops', 'branches.ops', 'overflow.ops', 'backlog.ops', 'coverage_gaps.ops'], profiles=list(profiles), keys=HUBKEYS + list(extra_keys),
+                scenarios=['basic.ops', 'findings.ops', 'branches.ops', 'overflow.ops', 'backlog.ops', 'coverage_gaps.ops', 'queries.ops'], profiles=list(profiles), keys=HUBKEYS + list(extra_keys),
                 ops=HUBOPS, assumes=E_ENV + list(assumes))
 
 
@@ -107,20 +113,20 @@ PENDING = {
     'C02': _hub('C02', [], ['registry', 'general'], kernels=['deleg', 'undeleg'], extra_keys=['rg.vals']),
     'C03': _hub('C03', [], ['pricing'], kernels=['ddiv']),
     'C04': _hub('C04', [], ['pricing', 'general']),
-    'C05': _hub('C05', [], ['pricing'], extra_keys=['hub.params']),
+    'C05': _hub('C05', [], ['pricing'], extra_keys=['hub.params', 'hub.qparams']),
     'C06': _hub('C06', [], ['pricing', 'unbond'], kernels=['nwr']),
     'C07': _hub('C07', [], ['unbond', 'token']),
-    'C08': _hub('C08', [], ['unbond', 'general'], extra_keys=['hub.params']),
+    'C08': _hub('C08', [], ['unbond', 'general'], extra_keys=['hub.params', 'hub.qparams']),
     'C09': dict(_hub('C09', [], ['exit'], extra_keys=['env']), probe=True),
     'C13': _hub('C13', [], ['registry'], kernels=['deleg'], extra_keys=['rg.']),
-    'C14': dict(props_file='Props/C14.v', theorems=[], kernels=['drewards'], scenarios=['basic.ops', 'findings.ops', 'branches.ops', 'overflow.ops'],
+    'C14': dict(props_file='Props/C14.v', theorems=[], kernels=['drewards'], scenarios=['basic.ops', 'findings.ops', 'branches.ops', 'overflow.ops', 'queries.ops'],
                 profiles=['rewards', 'token'], keys=['rw.', 'bank reward', 'm bank reward', 'm wasm bsei reward', 'm wasm disp reward', 'tok.bsei'],
                 ops=[r'^reward ', r'^cw bsei', r'^hub \S+ updateglobal', r'^bond b', r'^inst_reward'], assumes=E_ENV),
-    'C15': dict(props_file='Props/C15.v', theorems=[], kernels=['drewards'], scenarios=['basic.ops', 'findings.ops', 'branches.ops', 'overflow.ops'],
+    'C15': dict(props_file='Props/C15.v', theorems=[], kernels=['drewards'], scenarios=['basic.ops', 'findings.ops', 'branches.ops', 'overflow.ops', 'queries.ops'],
                 profiles=['rewards', 'token'], keys=['rw.', 'bank reward', 'm wasm bsei reward', 'm wasm disp reward', 'tok.bsei'],
                 ops=[r'^reward ', r'^cw bsei', r'^hub \S+ updateglobal', r'^bond b'], assumes=E_ENV),
-    'C16': dict(props_file='Props/C16.v', theorems=[], kernels=[], scenarios=['basic.ops', 'findings.ops', 'branches.ops', 'overflow.ops', 'token.ops'],
-                profiles=['token', 'general'], keys=['rw.holder', 'rw.state', 'tok.bsei', 'm wasm bsei', 'm wasm hub bsei'],
+    'C16': dict(props_file='Props/C16.v', theorems=[], kernels=[], scenarios=['basic.ops', 'findings.ops', 'branches.ops', 'overflow.ops', 'token.ops', 'queries.ops'],
+                profiles=['token', 'general'], keys=['rw.holder', 'rw.state', 'rw.qholders', 'rw.qstate', 'tok.bsei', 'm wasm bsei', 'm wasm hub bsei'],
                 ops=[r'^cw bsei', r'^bond b', r'^reward \S+ (inc|dec)'], assumes=E_ENV + ['bSei instantiated without initial balances']),
     'C19': dict(props_file='Props/C19.v', theorems=[], kernels=['swapinfo'], scenarios=['basic.ops', 'findings.ops', 'branches.ops', 'overflow.ops'],
                 profiles=['rewards'], keys=HUBKEYS + ['m ', 'bank ', 'pend', 'rw.', 'dp.'],
